@@ -34,6 +34,10 @@ Definition hops (s : chain) : nat :=
 Lemma suspended_not_running k r n : suspended k r n = true -> treated_running k r n = false.
 Proof. destruct k, r, n; simpl; intros; try reflexivity; discriminate. Qed.
 
+Lemma flatten_done (c : cfg) fuel cnt te_rev errs t :
+  flatten (S fuel) cnt c [] te_rev errs t = FlOk (rev te_rev) errs t.
+Proof. reflexivity. Qed.
+
 Section Chain.
 Variables (ch : chain) (sl : nat -> list nat) (cx : nat -> cres) (fl : nat -> fres)
           (wc : bool) (g : guards) (ug : nat).
@@ -42,6 +46,17 @@ Local Notation c := (chain_cfg_gen ch sl cx fl wc g ug).
 Lemma bo_link pos fb k fr r n :
   node_at ch pos = Link k fr r n -> better_origin c (QObj pos) fb = Some pos.
 Proof. intros H. unfold better_origin. simpl. rewrite H. reflexivity. Qed.
+
+Lemma flatten_py fuel cnt org f d tu te_rev errs t :
+  flatten (S fuel) cnt c ((org, QPy f, d) :: tu) te_rev errs t
+  = flatten fuel 0 c tu ((QFr f (frame_origin c org f), d) :: te_rev) errs t.
+Proof. reflexivity. Qed.
+
+Lemma flatten_wrap pos d cnt o1 fuel te_rev errs t :
+  urule sl (node_at ch pos) pos = UOne (IObj (S pos)) -> (ug <? S cnt) = false ->
+  flatten (S fuel) cnt c [(o1, QObj pos, d)] te_rev errs t
+  = flatten fuel (S cnt) c [(better_origin c (QObj (S pos)) o1, QObj (S pos), S d)] te_rev errs (S t).
+Proof. intros H H0. simpl. rewrite H. simpl. rewrite H0. reflexivity. Qed.
 
 Lemma flatten_chain :
   forall s pos d cnt org0 fuel te_rev errs t,
@@ -72,29 +87,368 @@ Proof.
       assert (Hch : node_at ch (S pos) = n) by (rewrite node_at_S, Hn; reflexivity).
       destruct (is_nil n) eqn:En.
       * destruct n; try discriminate.
-        simpl. rewrite Hfo.
+        rewrite flatten_py, Hfo.
         destruct fuel as [|fuel]; [simpl in Hfuel; lia|].
-        simpl. rewrite Nat.add_1_r. reflexivity.
-      * unfold child_item. rewrite En.
-        change (flatten (S fuel) (S cnt) c
-                  ((Some pos, QPy f, S d)
-                   :: map (fun i : item => (better_origin c (q_of i) (Some pos), q_of i, S d)) [IObj (S pos)] ++ [])
-                  te_rev errs (S t))
-          with (flatten fuel 0 c [(better_origin c (QObj (S pos)) (Some pos), QObj (S pos), S d)]
-                  ((QFr f (frame_origin c (Some pos) f), S d) :: te_rev) errs (S t)).
-        rewrite Hfo.
-        rewrite (IH (S pos) (S d) 0 (Some pos) fuel _ errs (S t) Hch Hw En Hug).
+        unfold child_item; cbn [is_nil map app].
+        rewrite flatten_done. simpl. rewrite Nat.add_1_r. reflexivity.
+      * rewrite flatten_py, Hfo.
+        unfold child_item. rewrite En. cbn [map app q_of].
+        rewrite (IH (S pos) (S d) 0 (Some pos) fuel _ errs (S t) Hch Hw eq_refl Hug).
         -- simpl. rewrite <- app_assoc. simpl. f_equal. lia.
         -- destruct n; simpl; lia.
         -- simpl in Hfuel. lia.
     + (* exhausted *)
       simpl in Hwf. apply andb_true_iff in Hwf as [Hr Hw].
       destruct r; [discriminate|]. destruct n; try discriminate.
-      simpl. rewrite Hn. simpl.
-      replace (match k with KAGen => false | _ => false end) with false by (destruct k; reflexivity).
-      simpl. rewrite Hlt.
+      assert (Htr : treated_running k false Nil = false) by (destruct k; reflexivity).
+      simpl. rewrite Hn. simpl. rewrite Htr. simpl. rewrite Hlt.
       destruct fuel as [|fuel]; [simpl in Hfuel; lia|].
       simpl. rewrite app_nil_r, Nat.add_1_r. reflexivity.
-  - Show.
-Abort.
+  - (* CoroWrapper *)
+    destruct fuel as [|fuel]; [simpl in Hfuel; lia|].
+    simpl in Hwf. apply andb_true_iff in Hwf as [Hk Hw].
+    assert (Hlt : (ug <? S cnt) = false) by (apply Nat.ltb_ge; simpl in Hcnt; lia).
+    assert (Hch : node_at ch (S pos) = u) by (rewrite node_at_S, Hn; reflexivity).
+    rewrite flatten_wrap; [| rewrite Hn; simpl; rewrite Hk; reflexivity | exact Hlt].
+    rewrite (IH (S pos) (S d) (S cnt) _ fuel te_rev errs (S t) Hch Hw); try assumption.
+    + simpl. f_equal. lia.
+    + destruct u; try discriminate; reflexivity.
+    + destruct u; try discriminate. simpl in *. lia.
+    + simpl in Hfuel. lia.
+  - (* ASend *)
+    destruct fuel as [|fuel]; [simpl in Hfuel; lia|].
+    simpl in Hwf. apply andb_true_iff in Hwf as [Hk Hw].
+    assert (Hlt : (ug <? S cnt) = false) by (apply Nat.ltb_ge; simpl in Hcnt; lia).
+    assert (Hch : node_at ch (S pos) = u) by (rewrite node_at_S, Hn; reflexivity).
+    rewrite flatten_wrap; [| rewrite Hn; simpl; rewrite Hk; reflexivity | exact Hlt].
+    rewrite (IH (S pos) (S d) (S cnt) _ fuel te_rev errs (S t) Hch Hw); try assumption.
+    + simpl. f_equal. lia.
+    + destruct u; try discriminate; reflexivity.
+    + destruct u; try discriminate. simpl in *. lia.
+    + simpl in Hfuel. lia.
+  - (* AThrow *)
+    destruct fuel as [|fuel]; [simpl in Hfuel; lia|].
+    simpl in Hwf. apply andb_true_iff in Hwf as [Hk Hw].
+    assert (Hlt : (ug <? S cnt) = false) by (apply Nat.ltb_ge; simpl in Hcnt; lia).
+    assert (Hch : node_at ch (S pos) = u) by (rewrite node_at_S, Hn; reflexivity).
+    rewrite flatten_wrap; [| rewrite Hn; simpl; rewrite Hk; reflexivity | exact Hlt].
+    rewrite (IH (S pos) (S d) (S cnt) _ fuel te_rev errs (S t) Hch Hw); try assumption.
+    + simpl. f_equal. lia.
+    + destruct u; try discriminate; reflexivity.
+    + destruct u; try discriminate. simpl in *. lia.
+    + simpl in Hfuel. lia.
+Qed.
 End Chain.
+
+(* ---------- what the outer loop makes of a fully unwrapped queue (every hook at default) ---------- *)
+Fixpoint te_out (te : list tent) : list fout :=
+  match te with
+  | (QFr f org, _) :: r => FOut f false org [] :: te_out r
+  | _ => []
+  end.
+
+Fixpoint te_leaf (te : list tent) : leaf :=
+  match te with
+  | [] => LNone
+  | (QFr _ _, _) :: r => te_leaf r
+  | (q, _) :: r => match r with [] => LOne q | _ => LMany (map fst te) end
+  end.
+
+Lemma entries_out s : forall pos d,
+  te_out (entries s pos d) = map (fun fp => FOut (fst fp) false (Some (snd fp)) []) (ref_path s pos).
+Proof.
+  induction s as [| |k fr r n IH|u IH|u IH|u IH]; intros pos d; simpl; auto.
+  destruct fr; simpl; [rewrite IH|]; reflexivity.
+Qed.
+
+Lemma entries_leaf s : forall pos d, te_leaf (entries s pos d) = ref_leaf s pos.
+Proof.
+  induction s as [| |k fr r n IH|u IH|u IH|u IH]; intros pos d; simpl; auto.
+  destruct fr; simpl; [rewrite IH|]; reflexivity.
+Qed.
+
+Lemma entries_length s : forall pos d, length (entries s pos d) <= chain_len s.
+Proof.
+  induction s as [| |k fr r n IH|u IH|u IH|u IH]; intros pos d; simpl;
+    try (specialize (IH (S pos) (S d))); try lia.
+  destruct fr; simpl; lia.
+Qed.
+
+Lemma te_out_le te : length (te_out te) <= length te.
+Proof. induction te as [|[q d] r IH]; simpl; [lia|]. destruct q; simpl; lia. Qed.
+
+Lemma cost_le s : cost s <= 2 * chain_len s.
+Proof. induction s as [| |k fr r n IH|u IH|u IH|u IH]; simpl; try lia. destruct fr; lia. Qed.
+
+Section Walk.
+Variables (ch : chain) (sl : nat -> list nat) (wc : bool) (g : guards) (ug : nat).
+Local Notation c := (chain_cfg ch sl wc g ug).
+
+Lemma ctx_step_trivial runner f errs t :
+  ctx_step c runner f errs t = ([], errs, if wc then S t else t, None).
+Proof. unfold ctx_step. destruct wc; reflexivity. Qed.
+
+(* the outer loop over an unwrapped queue, trivial context tables *)
+Lemma run_walk :
+  forall te fuel tu te0 errs0 out t errs t1,
+    flatten (S fuel) 0 c tu (rev te0) errs0 t = FlOk te errs t1 ->
+    length (te_out te) <= fuel ->
+    exists t2,
+      run (S fuel) false c tu te0 errs0 out t
+      = (Ok (Stack (rev out ++ te_out te) (te_leaf te) (rev errs)), t2).
+Proof.
+  induction te as [|[q d] rest IH]; intros fuel tu te0 errs0 out t errs t1 Hfl Hlen.
+  - exists t1. cbn [run]. rewrite Hfl. simpl. rewrite app_nil_r. reflexivity.
+  - destruct q as [f|f org|o|].
+    + exists t1. cbn [run]. rewrite Hfl. simpl. rewrite app_nil_r. reflexivity.
+    + destruct fuel as [|fuel]; [simpl in Hlen; lia|].
+      destruct (IH fuel [] rest errs (FOut f false org [] :: out) (S (if wc then S t1 else t1)) errs
+                   (S (if wc then S t1 else t1))) as [t2 Ht2].
+      * rewrite flatten_done, rev_involutive. reflexivity.
+      * simpl in Hlen. lia.
+      * exists t2. remember (S fuel) as F eqn:EF in *.
+        cbn [run]. rewrite Hfl. rewrite ctx_step_trivial. unfold elab_step. simpl.
+        rewrite Ht2. simpl. rewrite <- app_assoc. reflexivity.
+    + exists t1. cbn [run]. rewrite Hfl. simpl. rewrite app_nil_r. reflexivity.
+    + exists t1. cbn [run]. rewrite Hfl. simpl. rewrite app_nil_r. reflexivity.
+Qed.
+End Walk.
+
+(* ---------- C03_frames_eq_path ---------- *)
+Lemma frames_eq_path_fuel :
+  forall ch sl wc g ug fuel,
+    wf_susp ch = true -> is_nil ch = false -> 2 <= ug -> 2 * chain_len ch + 2 <= fuel ->
+    fst (run fuel false (chain_cfg ch sl wc g ug) (root_q (chain_cfg ch sl wc g ug) chain_root) [] [] [] 0)
+    = Ok (ref_stack ch).
+Proof.
+  intros ch sl wc g ug fuel Hwf Hnil Hug Hfuel.
+  destruct fuel as [|fuel]; [lia|].
+  pose proof (cost_le ch) as Hc.
+  pose proof (entries_length ch 0 0) as Hl.
+  assert (Hfl : flatten (S fuel) 0 (chain_cfg ch sl wc g ug)
+                  (root_q (chain_cfg ch sl wc g ug) chain_root) (rev []) [] 0
+                = FlOk (entries ch 0 0) [] (0 + chain_len ch)).
+  { unfold chain_cfg, root_q, chain_root. cbn [q_of rev].
+    rewrite (flatten_chain ch sl _ _ wc g ug ch 0 0 0 None (S fuel) [] [] 0); auto.
+    - destruct ch; simpl; lia.
+    - lia. }
+  pose proof (te_out_le (entries ch 0 0)) as Hl2.
+  destruct (run_walk ch sl wc g ug (entries ch 0 0) fuel _ [] [] [] 0 [] _ Hfl) as [t2 Ht2]; [lia|].
+  rewrite Ht2. simpl. unfold ref_stack. rewrite entries_out, entries_leaf. reflexivity.
+Qed.
+
+Lemma frames_eq_path :
+  forall ch sl wc,
+    wf_susp ch = true -> is_nil ch = false -> 2 * chain_len ch + 2 <= default_fuel ->
+    extract (chain_cfg ch sl wc all_guards 100) chain_root = Ok (ref_stack ch).
+Proof.
+  intros ch sl wc Hwf Hnil Hfuel. unfold extract, extract_t.
+  apply frames_eq_path_fuel; auto. repeat constructor.
+Qed.
+
+(* ---------- with_contexts does not change frames or leaf ---------- *)
+Definition not_ok (o : outcome) : Prop := match o with Ok _ => False | _ => True end.
+
+Lemma run_kids_bad runner kids : forall acc t ks b t',
+  run_kids runner kids acc t = (ks, Some b, t') -> not_ok b.
+Proof.
+  induction kids as [|k r IH]; simpl; intros acc t ks b t' H; [discriminate|].
+  destruct (runner k t) as [o t2] eqn:E. destruct o.
+  - eapply IH; eauto.
+  - inversion H; subst; exact I.
+  - inversion H; subst; exact I.
+Qed.
+
+Lemma fill_all_bad c runner l : forall acc errs t r1 r2 r3 b,
+  fill_all c runner l acc errs t = (r1, r2, r3, Some b) -> not_ok b.
+Proof.
+  induction l as [|cid r IH]; simpl; intros acc errs t r1 r2 r3 b H; [discriminate|].
+  destruct (fault c t).
+  { destruct (g_fill (grd c)); [eapply IH; eauto | inversion H; subst; exact I]. }
+  destruct (fill c cid) as [kids|].
+  - destruct (run_kids runner kids [] (S t)) as [[ks ob] t'] eqn:E.
+    destruct ob as [bad|]; [| eapply IH; eauto].
+    pose proof (run_kids_bad _ _ _ _ _ _ _ E) as Hb.
+    destruct bad; [destruct Hb | |].
+    + destruct (g_fill (grd c)); [eapply IH; eauto | inversion H; subst; exact I].
+    + inversion H; subst; exact I.
+  - destruct (g_fill (grd c)); [eapply IH; eauto | inversion H; subst; exact I].
+Qed.
+
+Lemma ctx_step_bad c runner f errs t r1 r2 r3 b :
+  ctx_step c runner f errs t = (r1, r2, r3, Some b) -> not_ok b.
+Proof.
+  unfold ctx_step. intros H.
+  destruct (negb (with_ctx c)); [discriminate|].
+  destruct (fault c t).
+  { destruct (g_ctx (grd c)); inversion H; subst; exact I. }
+  destruct (ctxs c f) as [l|].
+  - eapply fill_all_bad; eauto.
+  - destruct (g_ctx (grd c)); inversion H; subst; exact I.
+Qed.
+
+Section Irrel.
+Variables (ch : chain) (sl : nat -> list nat) (cx cx' : nat -> cres) (fl fl' : nat -> fres)
+          (wc wc' : bool) (g : guards) (ug : nat).
+Local Notation cT := (chain_cfg_gen ch sl cx fl wc g ug).
+Local Notation cF := (chain_cfg_gen ch sl cx' fl' wc' g ug).
+
+Lemma iter_steps_irrel o l b : forall t, iter_steps cT o l b t = iter_steps cF o l b t.
+Proof. induction l as [|x r IH]; intros t; simpl; [reflexivity|]. rewrite IH. reflexivity. Qed.
+
+(* the inner loop never looks at the context tables or the flag *)
+Lemma flatten_irrel : forall fuel cnt tu te errs t,
+  flatten fuel cnt cT tu te errs t = flatten fuel cnt cF tu te errs t.
+Proof.
+  induction fuel as [|fuel IH]; [reflexivity|].
+  intros cnt tu te errs t. destruct tu as [|[[org cur] d] tu]; [reflexivity|].
+  destruct cur as [f|f o|o|].
+  - simpl. apply IH.
+  - simpl. apply IH.
+  - simpl. destruct (urule sl (node_at ch o) o) eqn:E; simpl; repeat rewrite IH; try reflexivity.
+    rewrite iter_steps_irrel. destruct (iter_steps cF o l raises (S t)) as [[k e] t2].
+    destruct e; repeat rewrite IH; reflexivity.
+  - simpl. repeat rewrite IH. reflexivity.
+Qed.
+End Irrel.
+
+Definition core (f : fout) : nat * bool * option nat := match f with FOut f h o _ => (f, h, o) end.
+(* frames without their contexts, and the leaf *)
+Definition strip (s : stack) : list (nat * bool * option nat) * leaf :=
+  match s with Stack frs lf _ => (map core frs, lf) end.
+
+Section Ctx.
+Variables (ch : chain) (sl : nat -> list nat) (cx : nat -> cres) (fl : nat -> fres)
+          (wc : bool) (g : guards) (ug : nat).
+Local Notation cT := (chain_cfg_gen ch sl cx fl wc g ug).
+
+Lemma run_ctx :
+  forall te fuel tu te0 errs0 out t errs t1 s tfin,
+    flatten (S fuel) 0 cT tu (rev te0) errs0 t = FlOk te errs t1 ->
+    run (S fuel) false cT tu te0 errs0 out t = (Ok s, tfin) ->
+    strip s = (map core (rev out ++ te_out te), te_leaf te) /\ length (te_out te) <= fuel.
+Proof.
+  induction te as [|[q d] rest IH]; intros fuel tu te0 errs0 out t errs t1 s tfin Hfl H.
+  - cbn [run] in H. rewrite Hfl in H. simpl in H. inversion H; subst. simpl.
+    rewrite app_nil_r. split; [reflexivity|lia].
+  - destruct q as [f|f org|o|].
+    + cbn [run] in H. rewrite Hfl in H. simpl in H. inversion H; subst. simpl.
+      rewrite app_nil_r. split; [reflexivity|lia].
+    + cbn [run] in H. rewrite Hfl in H.
+      destruct (ctx_step cT
+                  (fun k t => run fuel false cT [(better_origin cT (q_of k) None, q_of k, 0)] [] [] [] t)
+                  f errs t1) as [[[cxs errs2] t2] [bad|]] eqn:Ectx.
+      * apply ctx_step_bad in Ectx. inversion H; subst. destruct Ectx.
+      * unfold elab_step in H. simpl in H.
+        destruct fuel as [|fuel]; [discriminate|].
+        destruct (IH fuel [] rest errs2 (FOut f false org cxs :: out) (S t2) errs2 (S t2) s tfin) as [Hs Hl].
+        -- rewrite flatten_done, rev_involutive. reflexivity.
+        -- exact H.
+        -- split; [| simpl; lia].
+           rewrite Hs. simpl. rewrite <- app_assoc. simpl.
+           rewrite !map_app. reflexivity.
+    + cbn [run] in H. rewrite Hfl in H. simpl in H. inversion H; subst. simpl.
+      rewrite app_nil_r. split; [reflexivity|lia].
+    + cbn [run] in H. rewrite Hfl in H. simpl in H. inversion H; subst. simpl.
+      rewrite app_nil_r. split; [reflexivity|lia].
+Qed.
+End Ctx.
+
+Lemma contexts_flag_irrelevant_fuel :
+  forall ch sl cx fl wc g ug fuel root s t,
+    run fuel false (chain_cfg_gen ch sl cx fl wc g ug)
+        (root_q (chain_cfg_gen ch sl cx fl wc g ug) root) [] [] [] 0 = (Ok s, t) ->
+    exists s' t',
+      run fuel false (chain_cfg ch sl false g ug) (root_q (chain_cfg ch sl false g ug) root) [] [] [] 0
+      = (Ok s', t') /\ strip s' = strip s.
+Proof.
+  intros ch sl cx fl wc g ug fuel root s t H.
+  destruct fuel as [|fuel]; [discriminate|].
+  destruct (flatten (S fuel) 0 (chain_cfg_gen ch sl cx fl wc g ug)
+              (root_q (chain_cfg_gen ch sl cx fl wc g ug) root) (rev []) [] 0)
+    as [te errs t1|e|] eqn:E.
+  - destruct (run_ctx ch sl cx fl wc g ug te fuel _ [] [] [] 0 errs t1 s t E H) as [Hs Hl].
+    assert (E' : flatten (S fuel) 0 (chain_cfg ch sl false g ug)
+                   (root_q (chain_cfg ch sl false g ug) root) (rev []) [] 0 = FlOk te errs t1).
+    { unfold chain_cfg. rewrite <- E. symmetry. apply flatten_irrel. }
+    destruct (run_walk ch sl false g ug te fuel _ [] [] [] 0 errs t1 E' Hl) as [t2 Ht2].
+    eexists; exists t2. split; [exact Ht2|]. rewrite Hs. reflexivity.
+  - cbn [run] in H. rewrite E in H. discriminate.
+  - cbn [run] in H. rewrite E in H. discriminate.
+Qed.
+
+Lemma contexts_flag_irrelevant_fst :
+  forall ch sl cx fl wc g ug fuel root s,
+    fst (run fuel false (chain_cfg_gen ch sl cx fl wc g ug)
+           (root_q (chain_cfg_gen ch sl cx fl wc g ug) root) [] [] [] 0) = Ok s ->
+    exists s',
+      fst (run fuel false (chain_cfg ch sl false g ug) (root_q (chain_cfg ch sl false g ug) root) [] [] [] 0)
+      = Ok s' /\ strip s' = strip s.
+Proof.
+  intros ch sl cx fl wc g ug fuel root s H.
+  destruct (run fuel false (chain_cfg_gen ch sl cx fl wc g ug)
+              (root_q (chain_cfg_gen ch sl cx fl wc g ug) root) [] [] [] 0) as [o t] eqn:E.
+  simpl in H. subst o.
+  destruct (contexts_flag_irrelevant_fuel _ _ _ _ _ _ _ _ _ _ _ E) as [s' [t' [H1 H2]]].
+  exists s'. rewrite H1. split; [reflexivity|exact H2].
+Qed.
+
+Lemma contexts_flag_irrelevant :
+  forall ch sl cx fl g root s,
+    extract (chain_cfg_gen ch sl cx fl true g 100) root = Ok s ->
+    exists s', extract (chain_cfg ch sl false g 100) root = Ok s' /\ strip s' = strip s.
+Proof.
+  intros ch sl cx fl g root s. unfold extract, extract_t.
+  generalize default_fuel. intros fuel H.
+  eapply contexts_flag_irrelevant_fst. exact H.
+Qed.
+
+(* frames and leaf are the reference path whatever the context tables say *)
+Lemma frames_eq_path_any_contexts :
+  forall ch sl cx fl s,
+    wf_susp ch = true -> is_nil ch = false -> 2 * chain_len ch + 2 <= default_fuel ->
+    extract (chain_cfg_gen ch sl cx fl true all_guards 100) chain_root = Ok s ->
+    strip s = strip (ref_stack ch).
+Proof.
+  intros ch sl cx fl s Hwf Hnil Hfuel H.
+  destruct (contexts_flag_irrelevant _ _ _ _ _ _ _ H) as [s' [H1 H2]].
+  rewrite (frames_eq_path ch sl false Hwf Hnil Hfuel) in H1. inversion H1; subst. symmetry. exact H2.
+Qed.
+
+Lemma exhausted_no_frames :
+  forall k sl wc, extract (chain_cfg (Link k None false Nil) sl wc all_guards 100) chain_root
+                  = Ok (Stack [] LNone []).
+Proof.
+  intros k sl wc. rewrite frames_eq_path; try reflexivity.
+  apply Nat.leb_le. vm_compute. reflexivity.
+Qed.
+
+(* ---------- the hypotheses are met by non-trivial inputs ---------- *)
+Definition ex_chain : chain :=
+  Link KCoro (Some 10) false
+    (CoroWrapper (Link KCoro (Some 12) false
+       (ASend (Link KAGen (Some 14) true          (* blocked in an await: ag_running = True *)
+          (AThrow (Link KAGen (Some 16) true
+             (Link KGen (Some 17) false Leaf))))))).
+
+Example ex_chain_hyps :
+  wf_susp ex_chain = true /\ is_nil ex_chain = false /\ 2 * chain_len ex_chain + 2 <= default_fuel.
+Proof. repeat split; try reflexivity. apply Nat.leb_le. vm_compute. reflexivity. Qed.
+
+Example ex_chain_path :
+  ref_stack ex_chain
+  = Stack [FOut 10 false (Some 0) []; FOut 12 false (Some 2) []; FOut 14 false (Some 4) [];
+           FOut 16 false (Some 6) []; FOut 17 false (Some 7) []] (LOne (QObj 8)) [].
+Proof. reflexivity. Qed.
+
+(* a context table under which the with-contexts run is a Stack with contexts and a nested
+   child extraction, so the hypothesis of contexts_flag_irrelevant is satisfiable non-trivially *)
+Definition ex_cx (f : nat) : cres := if f =? 10 then CtxOk [7; 8] else if f =? 14 then CtxRaise else CtxOk [].
+Definition ex_fl (c : nat) : fres := if c =? 7 then FillOk [IObj 4] else FillRaise.
+
+Example ex_ctx_ok :
+  match extract (chain_cfg_gen ex_chain (fun _ => []) ex_cx ex_fl true all_guards 100) chain_root with
+  | Ok (Stack (FOut 10 _ _ (COut 7 [Stack (_ :: _) _ _] :: _) :: _) _ (_ :: _)) => True
+  | _ => False
+  end.
+Proof. vm_compute. exact I. Qed.
